@@ -76,7 +76,7 @@ def structures(n):
                         yield dict(ages=ages, hh=hh, match=match, partner=partner, parents=parents, flags=flags)
 
 
-def materialise(st, eig_mask):
+def materialise(st, eig_mask, young=20):
     n = len(st["ages"])
     p_id = [11 + 7 * ((i * 3) % n) + i for i in range(n)]  # unsorted, sparse labels
     lab = lambda j: -1 if j < 0 else p_id[j]  # noqa: E731
@@ -88,7 +88,7 @@ def materialise(st, eig_mask):
         if fl == 2:
             gv[a] = gv[b] = True
     return dict(
-        p_id=p_id, hh_id=[5 + h for h in st["hh"]], alter=[AGES[a] for a in st["ages"]],
+        p_id=p_id, hh_id=[5 + h for h in st["hh"]], alter=[(young if a == 1 else AGES[a]) for a in st["ages"]],
         p_id_ehepartner=ehe, p_id_einstandspartner=[lab(j) for j in st["partner"]],
         p_id_elternteil_1=[lab(p[0]) for p in st["parents"]], p_id_elternteil_2=[lab(p[1]) for p in st["parents"]],
         gemeinsam_veranlagt=gv, eigenbedarf_gedeckt=[bool(eig_mask >> i & 1) for i in range(n)],
@@ -132,18 +132,37 @@ def _check_structure(cols, order, viol_cb, counters, via_api=None):
         return False
     if via_api is None:
         got = {}
-        got["fg"] = G.fg_id_numpy(arr["p_id"], arr["hh_id"], arr["alter"], arr["p_id_einstandspartner"],
-                                  arr["p_id_elternteil_1"], arr["p_id_elternteil_2"])
-        got["bg"] = G.bg_id_numpy(got["fg"], arr["alter"], arr["eigenbedarf_gedeckt"])
-        got["eg"] = G.eg_id_numpy(arr["p_id"], arr["p_id_einstandspartner"])
-        got["ehe"] = G.ehe_id_numpy(arr["p_id"], arr["p_id_ehepartner"])
-        got["sn"] = G.sn_id_numpy(arr["p_id"], arr["p_id_ehepartner"], arr["gemeinsam_veranlagt"])
+        groupers = G.create_groupings()
+
+        def call(name, **extra):
+            # arguments by name (robust against re-ordered / additional arguments); parameter groups from the
+            # environment of DIRECT_DATE
+            import inspect
+
+            f = groupers[name]
+            kw = {}
+            for a in inspect.signature(f).parameters:
+                if a in extra:
+                    kw[a] = extra[a]
+                elif a in arr:
+                    kw[a] = arr[a]
+                elif a.endswith("_params"):
+                    kw[a] = _direct_params()[a[:-7]]
+                else:
+                    raise TypeError(f"grouping function {name} needs the unknown argument {a}")
+            return f(**kw)
+
+        got["fg"] = call("fg_id")
+        got["bg"] = call("bg_id", fg_id=got["fg"])
+        got["eg"] = call("eg_id")
+        got["ehe"] = call("ehe_id")
+        got["sn"] = call("sn_id")
         # priority flags are constant per Bedarfsgemeinschaft
         bgs = sorted(set(ref["bg"]), key=str)
         combo = {b: ((i + len(order) + int(arr["alter"][0])) % 4) for i, b in enumerate(bgs)}  # all four (flag1, flag2) combinations occur
         f1 = np.array([combo[b] in (1, 3) for b in ref["bg"]])
         f2 = np.array([combo[b] in (2, 3) for b in ref["bg"]])
-        got["wthh"] = G.wthh_id_numpy(arr["hh_id"], f1, f2)
+        got["wthh"] = call("wthh_id", wohngeld_vorrang_bg=f1, wohngeld_kinderzuschl_vorrang_bg=f2)
         ref_wthh = [(h, bool(a or b_)) for h, a, b_ in zip(arr["hh_id"].tolist(), f1.tolist(), f2.tolist())]
     else:
         got, ref_wthh = via_api(arr)
@@ -181,7 +200,18 @@ def worker_init():
     pass
 
 
-def _api_runner(params, functions):
+_DP = {}
+
+
+def _direct_params():
+    if "p" not in _DP:
+        from vf import env
+
+        _DP["p"] = env.environment(datetime.date(2023, 1, 1))[0]
+    return _DP["p"]
+
+
+def _api_runner(params, functions, year=2023, full=True):
     from _gettsim.config import TYPES_INPUT_VARIABLES
     from vf import env
 
@@ -193,7 +223,7 @@ def _api_runner(params, functions):
         for k, v in arr.items():
             data[k] = v
         data["kind"] = arr["alter"] < 18
-        data["geburtsjahr"] = 2023 - arr["alter"]
+        data["geburtsjahr"] = year - arr["alter"]
         data["geburtsmonat"] = np.ones(n, dtype=np.int64)
         data["geburtstag"] = np.ones(n, dtype=np.int64)
         data["jahr_renteneintr"] = data["geburtsjahr"] + 67
@@ -207,6 +237,11 @@ def _api_runner(params, functions):
         data["bruttokaltmiete_m_hh"] = 400.0 + 10.0 * arr["hh_id"]
         data["wohnfläche_hh"] = np.full(n, 60.0)
         df = pd.DataFrame(data)
+        if not full:  # historical dates: the ids that only need the pointer structure
+            out = env.simulate(df, params, functions, ["fg_id", "bg_id", "eg_id", "ehe_id", "sn_id"])
+            got = {l: out[f"{l}_id"].to_numpy() for l in ("fg", "bg", "eg", "ehe", "sn")}
+            got["wthh"] = arr["hh_id"] * 100
+            return got, [(h, False) for h in arr["hh_id"].tolist()]
         targets = ["fg_id", "bg_id", "eg_id", "ehe_id", "sn_id", "wthh_id", "wohngeld_vorrang_bg", "wohngeld_kinderzuschl_vorrang_bg"]
         out = env.simulate(df, params, functions, targets)
         got = {l: out[f"{l}_id"].to_numpy() for l in ("fg", "bg", "eg", "ehe", "sn", "wthh")}
@@ -244,7 +279,7 @@ def run_item(item):
                 for sub in itertools.combinations(cand, r_):
                     masks.append(sum(1 << i for i in sub))
             for mask in masks:
-                cols = materialise(st, mask)
+                cols = materialise(st, mask, young=[20, 24, 25, 26][si % 4])
                 valid_any = False
                 for order in perms:
                     ok = _check_structure(cols, order, viol, counters)
@@ -256,15 +291,19 @@ def run_item(item):
                     counters["structures"] += 1
                     if len(res["samples"]) < 1 and rng.random() < 0.02:
                         res["samples"].append({k: [x if not hasattr(x, "item") else x.item() for x in v] for k, v in cols.items()})
-                    if rng.random() < (0.02 if n >= 3 else 0.3):
+                    if rng.random() < (0.03 if n >= 3 else 0.3):
                         if api is None:
-                            p, f = env.environment(datetime.date(2023, 1, 1))
-                            api = _api_runner(p, f)
+                            api = {}
+                            for dd, full in ((datetime.date(2023, 1, 1), True), (datetime.date(2006, 1, 1), False), (datetime.date(1999, 7, 1), False)):
+                                p, f = env.environment(dd)
+                                api[dd] = _api_runner(p, f, dd.year, full)
+                        api_dates = sorted(api)
+                        the_api = api[api_dates[counters["api_runs"] % len(api_dates)]]
                         order = perms[int(rng.integers(0, len(perms)))]
                         try:
                             with warnings.catch_warnings():
                                 warnings.simplefilter("ignore")
-                                _check_structure(cols, order, viol, counters, via_api=api)
+                                _check_structure(cols, order, viol, counters, via_api=the_api)
                             counters["api_runs"] += 1
                         except Exception as e:  # noqa: BLE001
                             viol(f"api:exception:{type(e).__name__}", f"ids requested through the API raise {type(e).__name__}: {str(e)[:200]} for {cols}")
